@@ -97,6 +97,7 @@ def chanFor (pre post : World) (ad : Addr) (sid : Sid) (f : String) : String :=
     else if (kind = "ctrl" ∨ kind = "meta") ∧ mine then
       if ad.op = "pub" ∧ code ≠ "409" then userChn      -- {pub} answers under the publisher's name for the topic
       else if ad.op = "get" ∧ ad.what = "del" ∧ (kind = "meta" ∨ code = "204") then userChn
+      else if ad.op = "get" ∧ ad.what = "tags" ∧ kind = "meta" then userChn     -- replyGetTags: Topic.original
       else if ad.op = "sub" ∧ code = "200" then isRd post
       else ad.viaChn                                       -- everything else echoes the spelling of the request
     else sessChn || userChn                                -- broadcast: a reader's session, or a session of a user cached as a reader
